@@ -218,11 +218,14 @@ def run(repo: Repo, rep: Report) -> None:
 
 
 def more_rules(repo: Repo, rep: Report) -> None:
+    json_memo_rule(repo, rep, "C16.g-json-terms-parsed-individually")
+    more_rules2(repo, rep)
+
+
+def json_memo_rule(repo: Repo, rep: Report, RULE: str) -> None:
     js = repo.mod("rdflib.plugins.sparql.results.jsonresults")
-    xm = repo.mod("rdflib.plugins.sparql.results.xmlresults")
-    qm = repo.mod("rdflib.query")
     # (g) no lossy memo in front of parseJsonTerm
-    rep.rule("C16.g-json-terms-parsed-individually",
+    rep.rule(RULE,
              "JSONResult._get_bindings obtains every cell from parseJsonTerm(<that cell's object>); if parsed terms are memoised, the memo key contains "
              "all four fields parseJsonTerm reads (type, value, datatype, xml:lang)", floor=1)
     f = js.func("JSONResult._get_bindings")
@@ -251,10 +254,15 @@ def more_rules(repo: Repo, rep: Report) -> None:
                 src = norm(n.value)
         if not all(k in src for k in ("type", "value", "datatype", "xml:lang")):
             lossy.append((w, src))
-    rep.ob("C16.g-json-terms-parsed-individually", js, "JSONResult._get_bindings", "parseJsonTerm results are not memoised under a partial key", not lossy,
+    rep.ob(RULE, js, "JSONResult._get_bindings", "parseJsonTerm results are not memoised under a partial key", not lossy,
            "each cell parsed from its own JSON object" if not lossy else "parsed terms are cached under the key %s, which omits a field parseJsonTerm reads: cells differing only in that field collapse to the first one" % lossy[0][1][:80],
            node=lossy[0][0] if lossy else f)
 
+
+
+def more_rules2(repo: Repo, rep: Report) -> None:
+    xm = repo.mod("rdflib.plugins.sparql.results.xmlresults")
+    qm = repo.mod("rdflib.query")
     # (h) the literal's datatype attribute is written whenever the literal has a datatype
     rep.rule("C16.h-xml-datatype-written-when-present",
              "write_binding adds the datatype attribute under a test of the literal's datatype alone (`val.datatype` / `is not None`), not depending on "
